@@ -635,11 +635,17 @@ int vnacal_save(vnacal_t *vcp, const char *pathname)
 		vcp->vc_filename, strerror(errno));
 	return -1;
     }
-    free((void *)vcp->vc_filename);
-    if ((vcp->vc_filename = strdup(pathname)) == NULL) {
-	_vnacal_error(vcp, VNAERR_SYSTEM,
-		"strdup: %s", strerror(errno));
-	goto error;
+    {
+	char *new_filename;
+
+	/* pathname may be vc_filename itself: copy before freeing */
+	if ((new_filename = strdup(pathname)) == NULL) {
+	    _vnacal_error(vcp, VNAERR_SYSTEM,
+		    "strdup: %s", strerror(errno));
+	    goto error;
+	}
+	free((void *)vcp->vc_filename);
+	vcp->vc_filename = new_filename;
     }
     errno = 0;
     if (!yaml_document_initialize(&document, &version, &tags[0], &tags[0],
